@@ -32,6 +32,16 @@ def check_seed(r, k, seed, others=(1, 12345)):
     if any(sorted(row) != [0, 1, 2, 3] for row in rows):
         r.v(pre + 'row-not-a-permutation', 'seed', case, None, [row for row in rows if sorted(row) != [0, 1, 2, 3]][:3])
     snap = a.copy()
+    # the caller owns the table it was given: it may overwrite it, and a later call must not notice
+    try:
+        t1[...] = 7
+    except Exception:
+        pass
+    st, t1b, _ = brun(dsw.create_random_shuffles, observed_length=k, random_seed=seed)
+    r.trans += 1
+    if st != 'ok' or not np.array_equal(np.asarray(t1b), snap):
+        r.v(pre + 'result-aliased-between-calls', 'seed', case, None, None, 'first result overwritten by the caller, then the same call again')
+    a = snap.copy()
     # interleave other seeds, then the same seed again
     for o in others:
         brun(dsw.create_random_shuffles, observed_length=k, random_seed=o)
@@ -75,6 +85,7 @@ def check_digit(r, pattern, perm):
     rad = len(live)
     T = [list(perm)] + [[0, 1, 2, 3]] * 3
     tab = np.array(T, dtype=int)
+    tab0 = tab.tobytes()
     case = {'pattern': pattern, 'row': list(perm)}
     r.states += 1
     r.nontriv += 1 if (rad >= 2 and list(perm) != [0, 1, 2, 3]) else 0
@@ -126,6 +137,8 @@ def check_digit(r, pattern, perm):
         r.evals += 1
         if (st == 'ok') != w_ or (st0 == 'ok') != w_:
             r.v(pre + 'table-changes-set-of-walks', 'digit', dict(case, s=s), w_, [st, st0])
+    if tab.tobytes() != tab0:
+        r.v(pre + 'table-argument-modified', 'digit', case, T, U.rows(tab))
     r.out.add((pattern, tuple(images)))
 
 
